@@ -617,13 +617,24 @@ namespace sim
 			// +----+------+------+----------+----------+----------+
 
 			char const* buf = m_udp_buffer.data();
-			if (buf[2] != 0) std::printf("fragment != 0, not supported\n");
 
-			int const atyp = buf[3];
+			// a datagram too short to hold the header it announces is dropped
+			int atyp = bytes_transferred >= 4 ? buf[3] : 0;
+			if ((atyp == 1 && bytes_transferred < 10)
+				|| (atyp == 3 && (bytes_transferred < 5
+					|| bytes_transferred < std::size_t(7 + std::uint8_t(buf[4])))))
+			{
+				std::printf("socks_connection::on_read_udp: truncated datagram (%d bytes)\n"
+					, int(bytes_transferred));
+				atyp = 0;
+			}
+			else if (bytes_transferred >= 4 && buf[2] != 0)
+				std::printf("fragment != 0, not supported\n");
+
 			if (atyp == 3)
 			{
 				// hostname
-				int const len = buf[4];
+				int const len = std::uint8_t(buf[4]);
 
 				buf += 5;
 				bytes_transferred -= 5;
